@@ -157,7 +157,11 @@ func (r *HTTPResponseExpr) Validate(e *HTTPEndpointExpr) *eval.ValidationErrors 
 				if v == nil {
 					return nil
 				}
-				return v.AttributeExpr.Find(name).Type
+				att := v.AttributeExpr.Find(name)
+				if att == nil {
+					return nil
+				}
+				return att.Type
 			}
 			for _, v := range rt.Views {
 				if !rt.ViewHasAttribute(v.Name, name) {
